@@ -89,6 +89,35 @@ CLAIMED["C17"] = dict(
     design="§6 C17", technique="Lean 4 proof (list/index reasoning) + model/implementation correspondence on real scraped folders",
     note="Trusted: Lean kernel and standard axioms; model validated by sampling; no-collision hypothesis explicit; copy2/utime/makedirs exercised.")
 
+CLAIMED["C11"] = dict(
+    text="Kernel-checked theorems: GF(2^8) with the table multiplication of both fields is a Mathlib Field whose operations are the model's "
+         "own (tables tied to the source's prim/generator constants by a kernel-checked orbit fact); for every good codec (any of the 4 "
+         "algorithms, any n <= 255, any per-call k, any message length <= k) the check accepts message+own parity, rejects every word at "
+         "distance 1..n-k (minimum distance n-k+1 from the Vandermonde determinant), and accepts a truncated parity iff the cut symbols "
+         "were zero. Facade modelled line by line; encoders/syndromes at algorithm level; tied to the four real codecs every run.",
+    design="§5.1-5.3, §6 C11", technique="Lean 4 + Mathlib proof (field laws from kernel-checked tables, Vandermonde minimum distance) + codec correspondence",
+    note="Trusted: Lean kernel, standard axioms, imported Mathlib modules; third-party encoder/syndrome code modelled at algorithm level and "
+         "validated against the real codecs by sampling plus complete multiplication tables; translator ties constants.")
+CLAIMED["C12"] = dict(
+    text="Kernel-checked theorems: the three encoders behind codecs 1, 2, 3 (long division, synthetic division of the stripped dividend, "
+         "in-place LFSR), modelled separately, produce identical parity for every message, geometry and per-call k, and the parity passing "
+         "the check is unique (so each codec verifies ecc produced by the others). The ecc-body determinism clause (moved / time-touched "
+         "tree, codecs 1-3, index relative to the preamble) and cross-codec correction are decided by differential execution of the real "
+         "tools on every run; the raw .idx difference for a moved tree is known finding F20.",
+    design="§6 C12, §7 F20", technique="Lean 4 + Mathlib proof (uniqueness of the systematic parity) + differential execution of the tools",
+    note="Trusted: as C11; body determinism is evidenced by differential runs (the tool model has no root/time/codec-dependent term), not by "
+         "a theorem about the Python; F20 (absolute index offsets include the preamble) recorded as known finding.")
+CLAIMED["C02"] = dict(
+    text="Kernel-checked theorems over the line-by-line facade model with the third-party decoder as a parameter: exactly n-k parity bytes; "
+         "short messages = zero-padded; erasure positions handed to the library are exactly the received positions of the erasure symbol "
+         "shifted by the pad (padding never an erasure); under CONTRACT W (decoder returns the codeword within capacity - stated, proved "
+         "satisfiable via uniqueness of the codeword within capacity, validated on recorded library calls each run, not proved of the "
+         "libraries) decode returns exactly the original message and parity for e <= floor((n-k)/2) and for 2e+f <= n-k with erasures, any "
+         "per-call k. Facade checked at both interfaces against recorded library calls.",
+    design="§4, §5.3, §6 C02, §7 F19", technique="Lean 4 + Mathlib proof (facade refinement, decoding uniqueness) under an explicit decoder contract + boundary-refinement correspondence",
+    note="Trusted: as C11 plus contract W for reedsolo/unireedsolomon decoders (about 600 lines of third-party Berlekamp-Massey/Chien/Forney "
+         "code, modelled as a parameter); W is refuted by the dependency for codecs 1/2 with erasures on rare patterns: known finding F19.")
+
 NOT_YET = {}
 
 props = [json.loads(l) for l in open(os.path.join(VERIF, "properties.jsonl"))]
